@@ -369,3 +369,94 @@ Proof.
       destruct Hin.
     + vm_compute. discriminate.
 Qed.
+
+(* ================================================================== the non-primitive route
+   (FlowIRConcrete.instance() / replicate(), FlowIRExperimentConfiguration(primitive=False)) and
+   %(variable)s references inside environment values: Env.InstModel. *)
+Require Import V.Env.InstModel V.Env.InstProofs.
+
+(* What instance()/replicate() file under a name: the selected platform's environment of that name
+   layered over platform default's (just the one that exists when only one does; nothing when
+   neither), each string value interpolated by fill_env. *)
+Theorem C17_instance_environment : forall v n, NoDup (keys (P (base v))) ->
+  lookup n (inst_envs v) = option_map (fill_env (inst_globals v)) (layered_raw (base v) n).
+Proof. exact instance_environment. Qed.
+Print Assumptions C17_instance_environment.
+
+(* The context that interpolates the %(X)s references of the environment filed under n: for every
+   name X this environment's own variable X if it declares one, else the global variable X of the
+   platform (platform default's, overridden by the selected platform's).  No variable of any other
+   environment is visible. *)
+Theorem C17_interpolation_context : forall v n e, NoDup (keys (P (base v))) ->
+  layered_raw (base v) n = Some e -> NoDup (keys e) ->
+  exists ctx,
+    (forall X, lookup X ctx = match lookup X e with Some r => Some r | None => lookup X (inst_globals v) end) /\
+    (forall k, option_map (fun e' => lookup k e') (lookup n (inst_envs v)) =
+               Some (option_map (fill_ign ctx) (lookup k e))).
+Proof. exact interpolation_context. Qed.
+Print Assumptions C17_interpolation_context.
+
+(* Environments of other names are irrelevant: two documents with the same global variables and the
+   same environment n on the selected and on the default platform file the same thing under n. *)
+Theorem C17_other_environments_irrelevant : forall v1 v2 n,
+  NoDup (keys (P (base v1))) -> NoDup (keys (P (base v2))) ->
+  is_default (base v1) = is_default (base v2) -> dglob v1 = dglob v2 -> pglob v1 = pglob v2 ->
+  lookup n (P (base v1)) = lookup n (P (base v2)) ->
+  (is_default (base v1) = false -> lookup n (D (base v1)) = lookup n (D (base v2))) ->
+  lookup n (inst_envs v1) = lookup n (inst_envs v2).
+Proof. exact other_environments_irrelevant. Qed.
+Print Assumptions C17_other_environments_irrelevant.
+
+(* Interpolation neither adds nor removes a variable: the variables of the environment filed under n
+   are exactly those that the selected platform or (non-default platform) platform default declare
+   under n. *)
+Theorem C17_instance_variables : forall v n e, NoDup (keys (P (base v))) -> lookup n (inst_envs v) = Some e ->
+  forall k, In k (keys e) <->
+    (exists p, lookup n (P (base v)) = Some p /\ In k (keys p)) \/
+    (is_default (base v) = false /\ exists d, lookup n (D (base v)) = Some d /\ In k (keys d)).
+Proof. exact instance_variables. Qed.
+Print Assumptions C17_instance_variables.
+
+(* The configuration rebuilt from the replicated document raises FlowIREnvironmentUnknown for exactly
+   the names for which the primitive one does. *)
+Theorem C17_replicated_unknown : forall v n,
+  NoDup (keys (denvs (base v))) -> NoDup (keys (penvs (base v))) -> lower n = n -> n <> "none" ->
+  (get_environment (base (replicated v)) n = ErrUnknown <-> get_environment (base v) n = ErrUnknown).
+Proof. exact replicated_unknown. Qed.
+Print Assumptions C17_replicated_unknown.
+
+(* An environment whose values contain no "%" is filed as declared: on such documents the
+   non-primitive route coincides with the one of the theorems above. *)
+Theorem C17_instance_literal : forall g e,
+  forallb (fun kv => raw_nopct (snd kv)) e = true -> fill_env g e = e.
+Proof. exact fill_env_literal. Qed.
+Print Assumptions C17_instance_literal.
+
+(* non-vacuity: platform p; "tools" on default refers to the global G (overridden by p), to its own X and to H which only
+   "legacy" defines as an environment variable (the global H is used, not legacy's); the primitive and the non-primitive
+   route differ in when "$HOME" inside a global variable gets expanded *)
+Definition ex_v : vcfg := {|
+  base := {| is_default := false;
+             denvs := [("legacy", [("H", RStr "h-of-legacy"); ("G", RInt 9)]);
+                       ("Tools", [("X", RStr "x"); ("B", RStr "%(G)s:%(X)s:%(H)s:%(U)s"); ("N", RInt 7)])];
+             penvs := [("tools", [("W", RStr "%(N)s-$B")])];
+             sysv := [("INSTANCE_DIR", "/inst")] |};
+  dglob := [("G", RStr "g"); ("H", RStr "h-%(G)s/$HOME")];
+  pglob := [("G", RStr "gp")] |}.
+Example C17_nonvacuous_instance :
+  NoDup (keys (P (base ex_v))) /\ NoDup (keys (denvs (base ex_v))) /\ NoDup (keys (penvs (base ex_v))) /\
+  layered_raw (base ex_v) "tools" =
+    Some [("X", RStr "x"); ("B", RStr "%(G)s:%(X)s:%(H)s:%(U)s"); ("N", RInt 7); ("W", RStr "%(N)s-$B")] /\
+  lookup "tools" (inst_envs ex_v) =
+    Some [("X", RStr "x"); ("B", RStr "gp:x:h-gp/$HOME:%(U)s"); ("N", RInt 7); ("W", RStr "7-$B")] /\
+  env_for_node_v (route true ex_v) ex_launch (Some "TOOLS") false = ErrVar /\
+  env_with_name_v (route true ex_v) ex_launch (Some "TOOLS") =
+    Ok3 [("INSTANCE_DIR", "/inst"); ("X", "x"); ("B", "gp:x:h-gp/$HOME:%(U)s"); ("N", "7"); ("W", "7-$B")] /\
+  env_for_node_v (route false ex_v) ex_launch (Some "legacy") false = Ok3 [("INSTANCE_DIR", "/inst"); ("H", "h-of-legacy"); ("G", "9")] /\
+  get_environment (base (replicated ex_v)) "missing" = ErrUnknown.
+Proof.
+  split; [vm_compute; repeat (constructor; [cbn; intuition discriminate|]); constructor|].
+  split; [cbn; repeat (constructor; [cbn; intuition discriminate|]); constructor|].
+  split; [cbn; repeat (constructor; [cbn; intuition discriminate|]); constructor|].
+  vm_compute. repeat split; reflexivity.
+Qed.
